@@ -577,6 +577,9 @@ func c05Directed(c *core.Ctx) bool {
 }
 
 func (c05) RunCase(c *core.Ctx) {
+	if c.Case%97 == 23 && !w10(c, "C05") {
+		return
+	}
 	if c.Case%40 == 5 && !c05OwnIssue(c) {
 		return
 	}
